@@ -45,9 +45,11 @@ impl TraceData {
 
 #[must_use]
 pub fn trace_path(base_path: &Path) -> PathBuf {
-    let mut new_extension = base_path.extension().unwrap_or_default().to_owned();
-    new_extension.push(".trace");
-    base_path.with_extension(new_extension)
+    // Append rather than use with_extension, which for a path without an extension would give
+    // us `name..trace`.
+    let mut s = base_path.as_os_str().to_owned();
+    s.push(".trace");
+    PathBuf::from(s)
 }
 
 #[cfg(test)]
